@@ -157,7 +157,19 @@ Fixpoint desc_sorted (l : list event) : Prop :=
   end.
 
 (** the limit that applies to a filter: its own, capped by the store's
-    maximum ([NoLimit] = no maximum) *)
+    maximum ([NoLimit] = no maximum).
+
+    Reading of the handler option MaxLimit.  The property text speaks of "the
+    limit newest stored events" per filter and of their merge; MaxLimit is a
+    handler option (default NoLimit) that the store applies twice: as a cap
+    of every filter's limit and as a LIMIT of the merged, ordered answer.
+    The specification says exactly that: the limit of a filter is
+    min (its limit, MaxLimit) - MaxLimit alone if it has none - and the
+    answer is a choice of the MaxLimit newest members of the merge
+    ([query_spec], second [top_sel]).  With MaxLimit = NoLimit both clauses
+    vanish and [query_spec] is the property text verbatim.  The boolean
+    oracle decides [query_spec] in every case, also when a small MaxLimit
+    cuts the merged answer ([query_specb_spec], SqlMerge.v). *)
 Definition spec_limit (limit : option Z) (maxLimit : Z) : option Z :=
   match limit with
   | Some l => Some (Z.min l maxLimit)
@@ -337,9 +349,12 @@ Definition a_refs_scoped (es : list event) : bool :=
 
 (** the hash functions are injective on what the history and the query
     mention.  The model keys rows by the hash pre-images, so this is exactly
-    the condition under which it is faithful to the implementation; it is a
-    hypothesis of every C06/C14 theorem about histories (named in the trusted
-    base; a collision would show up as a correspondence difference). *)
+    the condition under which it is faithful to the implementation: under it
+    the store keyed by the hash values (SqlHashed.v) holds the image of the
+    model's tables and answers every query as the model does
+    ([hashed_store_refines], SqlHashedProofs.v).  That xxHash32 and MD5
+    satisfy it on a given history is in the trusted base (a collision would
+    show up as a correspondence difference). *)
 Section Hashes.
   Variable xx : Z -> str -> Z.          (* xxHash32 with a seed *)
   Variable md5 : str -> str.
